@@ -116,7 +116,8 @@ def longstrs():
         texts(40), texts(40), texts(300),
         st.builds(lambda t, n: (t * (n // len(t) + 1))[:n], tile,
                   st.sampled_from([254, 255, 256, 257, 4096, 65535, 65536,
-                                   70000])),
+                                   70000, 131056, 131057, 131072, 200000,
+                                   1048576])),
     )
 
 
